@@ -252,9 +252,9 @@ fn gen_spec(ch: &mut Choices, bad: &mut bool) -> Spec {
             6 => ch.u8() as i8,
             _ => -8,
         };
-        let fde_enc = if eh { ch.pick(&[0x00u8, 0x1b, 0x1b, 0x1c, 0x03, 0x0b, 0x04, 0x01, 0x09]) } else { ch.pick(&[0u8, 0, 0, 0x1b, 0x03]) };
-        let lsda_enc = if ch.chance(100) { Some(ch.pick(&[0x00u8, 0x1b, 0x03, 0x0b, 0x04])) } else { None };
-        let personality = if ch.chance(70) { Some((ch.pick(&[0x00u8, 0x1b, 0x9b, 0x03]), 0x10000 + ch.biased(12))) } else { None };
+        let fde_enc = if eh { ch.pick(&[0x00u8, 0x1b, 0x1b, 0x1c, 0x03, 0x0b, 0x04, 0x01, 0x09, 0x19, 0x11, 0x0c, 0x09]) } else { ch.pick(&[0u8, 0, 0, 0x1b, 0x03]) };
+        let lsda_enc = if ch.chance(100) { Some(ch.pick(&[0x00u8, 0x1b, 0x03, 0x0b, 0x04, 0x01, 0x09, 0x19, 0x0c])) } else { None };
+        let personality = if ch.chance(70) { Some((ch.pick(&[0x00u8, 0x1b, 0x9b, 0x03, 0x01, 0x09, 0x89, 0x0c, 0x19]), ch.pick(&[0x10000u64, 0x2000, 0x40, 0x12340, 0x30_0000]) + ch.biased(12))) } else { None };
         let ra = ch.pick(&[16u16, 0, 30, 127, 128, 255]);
         let n = ch.count(4);
         let mut instrs = Vec::new();
@@ -292,8 +292,9 @@ fn gen_spec(ch: &mut Choices, bad: &mut bool) -> Spec {
             off = off.saturating_add(delta);
             instrs.push((off, gen_si(ch, c.data_align, true, bad)));
         }
-        let address = 0x10000 + 0x1000 * k as u64;
-        fdes.push(SFde { cie, address, length: ch.pick(&[0u32, 1, 0x100, 0xfff]), lsda: c.lsda_enc.map(|_| 0x20000 + ch.biased(12)), instrs });
+        // start addresses and lengths on both sides of the LEB128 sign-bit and size steps
+        let address = ch.pick(&[0x10000u64, 0x10000, 0x2000, 0x40, 0x3f_c000, 0x7fff_0000]) + 0x1000 * k as u64;
+        fdes.push(SFde { cie, address, length: ch.pick(&[0u32, 1, 0x100, 0xfff, 0x40, 0x2000, 0x3fff]), lsda: c.lsda_enc.map(|_| ch.pick(&[0x20000u64, 0x2000, 0x40]) + ch.biased(12)), instrs });
     }
     Spec { eh, big, cies, fdes }
 }
@@ -661,7 +662,7 @@ impl Prop for C14 {
         "C14"
     }
     fn rule(&self) -> &'static str {
-        "generated frame tables: 1-3 CIEs (some identical or unreferenced) x 0-8 FDEs; CIE versions 1/3/4 for .debug_frame and 1 (occasionally an unsupported 3) for .eh_frame, 32/64-bit, address size 4/8, code alignment 1-255, data alignment -128..127 incl. 0, personality / LSDA / FDE-address encodings (absptr, pcrel, sized formats, indirect), signal trampoline, return-address registers around 127/128/255; FDE instruction lists over every write::CallFrameInstruction variant with offsets on and off the data-alignment grid, code offsets spanning 0x3f/0x40, 0xff/0x100, 0xffff/0x10000 after factoring and off the code-alignment grid. Oracle: read back with gimli's frame readers: same CIE parameters, FDE ranges, personality/LSDA pointers; identical CIEs emitted once and unreferenced ones not at all; length field + length a multiple of the address size; UnwindTable rows equal the call-frame state machine (cfimodel.rs) run on the supplied instruction list at the supplied code offsets; off-grid offsets / unsupported versions must be refused. Non-trivial = FDE with >=3 instructions at >=2 distinct offsets and a negative offset operand; distinct by choice string."
+        "generated frame tables: 1-3 CIEs (some identical or unreferenced) x 0-8 FDEs; CIE versions 1/3/4 for .debug_frame and 1 (occasionally an unsupported 3) for .eh_frame, 32/64-bit, address size 4/8, code alignment 1-255, data alignment -128..127 incl. 0, personality / LSDA / FDE-address encodings (absptr, pcrel, sized formats, uleb128/sleb128, indirect) with values on both sides of the LEB128 sign-bit and size steps, signal trampoline, return-address registers around 127/128/255; FDE instruction lists over every write::CallFrameInstruction variant with offsets on and off the data-alignment grid, code offsets spanning 0x3f/0x40, 0xff/0x100, 0xffff/0x10000 after factoring and off the code-alignment grid. Oracle: read back with gimli's frame readers: same CIE parameters, FDE ranges, personality/LSDA pointers; identical CIEs emitted once and unreferenced ones not at all; length field + length a multiple of the address size; UnwindTable rows equal the call-frame state machine (cfimodel.rs) run on the supplied instruction list at the supplied code offsets; off-grid offsets / unsupported versions must be refused. Non-trivial = FDE with >=3 instructions at >=2 distinct offsets and a negative offset operand; distinct by choice string."
     }
     fn assumptions(&self) -> Vec<&'static str> {
         vec![
